@@ -10,6 +10,7 @@ package main
 
 import (
 	"strings"
+	"sync/atomic"
 
 	"github.com/tinode/chat/server/auth"
 	"github.com/tinode/chat/server/logs"
@@ -133,9 +134,18 @@ func topicInit(t *Topic, join *ClientComMessage, h *Hub) {
 		// The owner (either party of a p2p topic) may have been suspended or re-activated while the
 		// topic was loading: the hub could not tell whose topic this is before the subscribers were
 		// read, and the state read at the start of the load is stale. Now that the subscribers are
-		// known the hub does reach the topic, read the state again.
-		if stopic, err := store.Topics.Get(t.name); err == nil && stopic != nil {
+		// known the hub does reach the topic: read the state again, and once more if the hub has
+		// started applying a state change in the meantime.
+		for {
+			seq := atomic.LoadInt32(&h.userStateSeq)
+			stopic, err := store.Topics.Get(t.name)
+			if err != nil || stopic == nil {
+				break
+			}
 			t.markReadOnly(stopic.State == types.StateSuspended)
+			if atomic.LoadInt32(&h.userStateSeq) == seq {
+				break
+			}
 		}
 	}
 
